@@ -426,6 +426,7 @@ func (e *env) firstDiff(req string, wire [][]byte) string {
 
 func (e *env) session(c e2eCase, nMsgs int) {
 	pol := short(c.uri)
+	segmented := e.rnd.Intn(3) != 0
 	nS, nR := e.rnd.Bytes(32), e.rnd.Bytes(32)
 	chanID, tokID := uint32(e.rnd.U64()), uint32(e.rnd.U64())
 	seq := uint32(e.rnd.Intn(1024))
@@ -450,6 +451,7 @@ func (e *env) session(c e2eCase, nMsgs int) {
 	defer wireIn.Close()
 	defer wireOut.Close()
 	defer rTCP.Close()
+	wireOut.SetNoDelay(true)
 	ack := &uacp.Acknowledge{ReceiveBufSize: uint32(c.cs), SendBufSize: uint32(c.cs), MaxChunkCount: 0, MaxMessageSize: 0}
 	sConn, _ := uacp.NewConn(sTCP, ack)
 	rConn, _ := uacp.NewConn(rTCP, ack)
@@ -534,12 +536,39 @@ func (e *env) session(c e2eCase, nMsgs int) {
 			}()
 			got <- rcv.Receive(ctx)
 		}()
+		// the segmenting writer: the chunks of the message are written to the receiver's TCP
+		// connection cut at arbitrary positions (inside headers, across chunk boundaries,
+		// single bytes) — the composed statement C07_stack_roundtrip
+		var stream []byte
 		for _, w := range wire {
+			stream = append(stream, w...)
+		}
+		var segs []string
+		for pos := 0; pos < len(stream); {
+			n := []int{1, 2, 7, 8, 9, 1 + e.rnd.Intn(64), 1 + e.rnd.Intn(4096), len(stream)}[e.rnd.Intn(8)]
+			if !segmented || pos+n > len(stream) {
+				n = len(stream) - pos
+			}
 			wireOut.SetWriteDeadline(time.Now().Add(30 * time.Second))
-			if _, err := wireOut.Write(w); err != nil {
+			if _, err := wireOut.Write(stream[pos : pos+n]); err != nil {
 				e.r.InfraError = "wire write: " + err.Error()
 				return
 			}
+			segs = append(segs, h.Hex(stream[pos:pos+n]))
+			pos += n
+			if segmented && e.rnd.Intn(4) == 0 {
+				time.Sleep(200 * time.Microsecond) // let the segment leave on its own
+			}
+		}
+		if segmented {
+			e.r.Hit("session:segmented")
+			e.r.Hit(fmt.Sprintf("segments-per-message:%d+", min(len(segs)/8*8, 32)))
+			// the framing model on exactly this segmentation delivers exactly the chunks
+			want := fmt.Sprintf("%d eof", len(wire))
+			for _, w := range wire {
+				want += " " + sha(w)
+			}
+			e.r.Compare(e.d, fmt.Sprintf("frames %d %s", c.cs, strings.Join(segs, " ")), want)
 		}
 		var msg *uasc.MessageBody
 		select {
@@ -1001,7 +1030,7 @@ func main() {
 			}
 		}
 	}
-	for _, b := range []string{"vad:intact:ok", "vad:bitflip:err", "vad:truncated:err", "session", "session:counter-wraps", "seq:wraps", "seq:first-chunk-0", "limits:none", "body:exact-multiple", "enc:maxBody=0", "opn:extra-padding sender=true receiver=false", "opn:extra-padding sender=false receiver=true", "opn:extra-padding sender=true receiver=true", "opn:extra-padding sender=false receiver=false"} {
+	for _, b := range []string{"vad:intact:ok", "vad:bitflip:err", "vad:truncated:err", "session", "session:segmented", "session:counter-wraps", "seq:wraps", "seq:first-chunk-0", "limits:none", "body:exact-multiple", "enc:maxBody=0", "opn:extra-padding sender=true receiver=false", "opn:extra-padding sender=false receiver=true", "opn:extra-padding sender=true receiver=true", "opn:extra-padding sender=false receiver=false"} {
 		if r.Distribution[b] == 0 {
 			r.Unreached = append(r.Unreached, b)
 		}
